@@ -46,6 +46,10 @@ CLAIMS = {
    technique="error-discipline dataflow: per I/O call site, abstract path exploration with the failure injected (derived failure values for internal wrappers), propagation call site by call site to a die or a documented warn-only sink; ordering analysis of destructive calls after a failed copy",
    text="Every call site of open/write/close/fopen/fread/fwrite/fclose/remove/rmdir/mkdir/stat/opendir/closedir and of the internal wrappers (mkpath, mkdir_if_need, json_serialize_to_file_pretty, move_thread_to_final) in libovni and common.c is enumerated from the resolved program; with the failure injected every path must die or return an error that each caller turns into its own failure, up to a die or the documented warn-only relocation sink (three frozen best-effort exceptions); remove() of a stream's temporary file must be unreachable after a failed fread/fwrite/fclose of its copy; write_evbuf must die on a failing write. parson's file serialiser is checked the same way. Not decided: that the run 'still leaves a complete, valid trace' as a whole-run outcome.",
    design_ref="§4 C10"),
+ "C11": dict(
+   technique="whole-program effect analysis (who-may-write shared static objects over the call graph from the exported API), typestate evaluation of the C11 compare-and-swap protocol over the finite domain of rproc.st, dominance-based guarded-read analysis, escape and non-reentrant-libc scans",
+   text="Over every function reachable from the 35+ exported symbols (ovni.c, common.c, compat.c, parson.c; hooks and function arguments resolved conservatively) the only written non-thread-local static object is rproc; rthread is _Thread_local and rproc.st _Atomic; ovni_proc_init / ovni_proc_fini are evaluated from all four values of rproc.st with the atomics executed on the abstract store: they proceed exactly from UNINIT resp. READY, die before any effect otherwise, and all process fields are written between the winning CAS and the store of READY; every other read of a process field is dominated by a READY / thread-ready test that dies, or lies in a static function all of whose call sites are (one frozen exception: the clock source in ovni_clock_now); no address of thread-local state escapes, no threads are created, no non-reentrant libc routine is reachable (strerror in diagnostics excepted). Not decided: interference through the file system between threads using the same TID, and memory-model subtleties below the C11 atomics.",
+   design_ref="§4 C11"),
  "C13": dict(
    technique="abstract exploration (merging worklist over clang CFGs) of system_connect and every model's create/connect/finish hooks to compute registered vs. declared PRV types per output; constant-table label coverage; abstract evaluation of prv_advance/prv_close/prf_add/prf_close",
    text="Per output (thread, cpu, both breakdown traces) the set of PRV types that can reach prv_register is computed from the code and constant tables and must be contained in the set reaching pcf_add_type on the same output; every constant value a model can write to a labelled channel (dispatch tables, task-body pushes, connect defaults, mux defaults, thread states, CPU affinity) must have a label; prv_advance / prv_close / write_line / prf_add / prf_close are evaluated on boundary cases (time going back, header rewrite, row bounds, duplicate and unset rows) and prv->time has a single writer. Not decided: that row numbers passed to prv_register are below the declared row count (a data fact of gindex numbering) and the zero/duplicate emission policy at run time.",
